@@ -183,7 +183,7 @@ def gen_case(rng):
         t = xref.tokenize(data)
         if t.in_domain and not t.error:
             break
-    initial = [rng.choice([b"i", b"-x", b"init", b"a b", b"{}", b"II"]) for _ in range(rng.choice([0, 0, 1, 2, 3]))]
+    initial = [rng.choice([b"i", b"-x", b"init", b"a b", b"{}", b"II", b"", b""]) for _ in range(rng.choice([0, 0, 1, 2, 3]))]      # ('' is an argument too)
     base = len(common.REC.encode()) + 1 + sum(len(a) + 1 for a in initial)
     n = L = S = None
     opts = []
